@@ -60,6 +60,7 @@ type walker struct {
 	errVars map[string]bool
 	stateRoots map[string]bool // parameters of type *StateDB / *stateObject / *journal / *accessList
 	effects []effect
+	noCollapse bool     // keep new(big.Int).Set(x) visible (aliasing facts)
 	mutated bool        // a state mutation has been seen in this top-level function
 	rets    [][][]guard // per result index: disjuncts
 	nres    int
@@ -129,7 +130,7 @@ func (w *walker) canon(e ast.Expr) string {
 	case *ast.CallExpr:
 		fn := w.canon(x.Fun)
 		// copy idioms carry no information: new(big.Int).Set(v) is v
-		if strings.HasSuffix(fn, ".Set") && strings.HasPrefix(fn, "new(big.Int)") && len(x.Args) == 1 {
+		if !w.noCollapse && strings.HasSuffix(fn, ".Set") && strings.HasPrefix(fn, "new(big.Int)") && len(x.Args) == 1 {
 			return w.canon(x.Args[0])
 		}
 		var as []string
@@ -951,6 +952,7 @@ func main() {
 	for _, k := range []string{"Keeper.DeleteAccount", "Keeper.SetAccount", "Keeper.SetState", "Keeper.SetCode"} {
 		all = append(all, kc.analyse(k))
 	}
+	printBigInt(c)
 	fmt.Println("(* per function: guarded effects (effect, guards on the path) and, per boolean result, the DNF of the")
 	fmt.Println("   condition under which it is true *)")
 	fmt.Println("Definition c03_functions : list (string * (list (string * list (string * bool)) * list (list (list (string * bool))))) := [")
@@ -962,5 +964,147 @@ func main() {
 			fmt.Println()
 		}
 	}
+	fmt.Println("].")
+}
+
+// ---------------------------------------------------------------- big.Int aliasing discipline
+
+var bigMutators = map[string]bool{"Add": true, "Sub": true, "Mul": true, "Div": true, "Quo": true, "Rem": true, "Mod": true,
+	"Neg": true, "Abs": true, "Set": true, "SetInt64": true, "SetUint64": true, "SetBytes": true, "SetString": true,
+	"SetBit": true, "Exp": true, "Lsh": true, "Rsh": true, "Not": true, "And": true, "Or": true, "Xor": true, "AndNot": true}
+
+func isBalancePath(s string) bool {
+	return strings.Contains(s, "BalanceWei") || strings.Contains(s, "BalanceNative") || strings.Contains(s, "prevWei") ||
+		strings.Contains(s, "prevbalance") || strings.HasSuffix(s, ".Balance()")
+}
+
+func classifySource(s string) string {
+	switch {
+	case strings.HasPrefix(s, "new(big.Int)"), strings.HasPrefix(s, "big.NewInt("), strings.Contains(s, "NativeToWei("), strings.HasSuffix(s, ".ToWei()"):
+		return "fresh " + s
+	case len(s) >= 2 && s[0] == 'p' && s[1] >= '0' && s[1] <= '9' && !strings.Contains(s, "."):
+		return "param"
+	case strings.HasPrefix(s, "recv.prev"):
+		return "entry " + s
+	case isBalancePath(s):
+		return "shared " + s
+	}
+	return "other " + s
+}
+
+// printBigInt lists, over the whole statedb package: every in-place big.Int operation on a stored
+// balance, where every value assigned to a balance field comes from, whether journal entries keep a
+// copy, and whether Balance() hands out the stored pointer.
+func printBigInt(c *ctx) {
+	var facts [][2]string
+	var keys []string
+	for k := range c.funcs {
+		keys = append(keys, k)
+	}
+	sort.Strings(keys)
+	for _, key := range keys {
+		fd := c.funcs[key]
+		if fd.Body == nil {
+			continue
+		}
+		rn, rt := recvOf(fd)
+		w := &walker{c: c, recv: rn, recvTyp: rt, env: map[string]string{}, errVars: map[string]bool{}, stateRoots: map[string]bool{}, noCollapse: true}
+		i := 0
+		for _, p := range fd.Type.Params.List {
+			for _, n := range p.Names {
+				w.env[n.Name] = fmt.Sprintf("p%d", i)
+				i++
+			}
+		}
+		ast.Inspect(fd.Body, func(n ast.Node) bool {
+			switch x := n.(type) {
+			case *ast.AssignStmt:
+				// remember simple aliases  b := <expr>
+				if x.Tok == token.DEFINE && len(x.Lhs) == len(x.Rhs) {
+					for i, l := range x.Lhs {
+						if id, ok := l.(*ast.Ident); ok && id.Name != "_" {
+							w.env[id.Name] = w.canon(x.Rhs[i])
+						}
+					}
+				}
+				if x.Tok == token.DEFINE && len(x.Lhs) == 2 && len(x.Rhs) == 1 {
+					if cl, ok := x.Rhs[0].(*ast.CallExpr); ok {
+						txt := w.canon(cl)
+						for i, l := range x.Lhs {
+							if id, ok := l.(*ast.Ident); ok && id.Name != "_" {
+								w.env[id.Name] = fmt.Sprintf("%s#%d", txt, i)
+							}
+						}
+					}
+				}
+				if x.Tok == token.ASSIGN {
+					for i, l := range x.Lhs {
+						lt := w.canon(l)
+						if i < len(x.Rhs) && (strings.HasSuffix(lt, ".BalanceWei") || strings.HasSuffix(lt, ".BalanceNative")) {
+							facts = append(facts, [2]string{"assign", key + ": " + lt[strings.LastIndex(lt, ".")+1:] + " := " + classifySource(w.canon(x.Rhs[i]))})
+						}
+					}
+				}
+			case *ast.CallExpr:
+				sel, ok := x.Fun.(*ast.SelectorExpr)
+				if !ok {
+					return true
+				}
+				recvTxt := w.canon(sel.X)
+				if bigMutators[sel.Sel.Name] && isBalancePath(recvTxt) && !strings.HasPrefix(recvTxt, "new(") && !strings.HasSuffix(recvTxt, ")") {
+					facts = append(facts, [2]string{"inplace", key + ": " + recvTxt + "." + sel.Sel.Name})
+				}
+				if (sel.Sel.Name == "setBalance" || sel.Sel.Name == "SetBalance") && len(x.Args) == 1 {
+					facts = append(facts, [2]string{"assign", key + ": " + sel.Sel.Name + " " + classifySource(w.canon(x.Args[0]))})
+				}
+			case *ast.CompositeLit:
+				tn := typeName(x.Type)
+				if tn == "balanceChange" || tn == "suicideChange" {
+					for _, el := range x.Elts {
+						if kv, ok := el.(*ast.KeyValueExpr); ok {
+							k := Nospace(kv.Key)
+							if k == "prevWei" || k == "prevbalance" {
+								v := w.canon(kv.Value)
+								kind := "alias"
+								if strings.HasPrefix(v, "new(big.Int).Set(") {
+									kind = "copy"
+								}
+								facts = append(facts, [2]string{"journal-prev", tn + "." + k + " " + kind})
+							}
+						}
+					}
+				}
+			case *ast.ReturnStmt:
+				if key == "stateObject.Balance" && len(x.Results) == 1 {
+					v := w.canon(x.Results[0])
+					kind := "alias " + v
+					if strings.HasPrefix(v, "new(big.Int).Set(") {
+						kind = "copy"
+					}
+					facts = append(facts, [2]string{"getter", "stateObject.Balance " + kind})
+				}
+			}
+			return true
+		})
+	}
+	sort.Slice(facts, func(i, j int) bool {
+		if facts[i][0] != facts[j][0] {
+			return facts[i][0] < facts[j][0]
+		}
+		return facts[i][1] < facts[j][1]
+	})
+	fmt.Println("(* big.Int aliasing discipline of the statedb package: in-place operations on stored balances (expected: none),")
+	fmt.Println("   the source of every value stored into a balance field, whether journal entries copy, what Balance() returns *)")
+	fmt.Println("Definition c03_bigint : list (string * string) := [")
+	seen := map[string]bool{}
+	var rows []string
+	for _, f := range facts {
+		r := fmt.Sprintf("  (%s, %s)", CoqString(f[0]), CoqString(f[1]))
+		if !seen[r] {
+			seen[r] = true
+			rows = append(rows, r)
+		}
+	}
+	fmt.Println(strings.Join(rows, ";\n"))
 	fmt.Println("].")
 }
